@@ -185,6 +185,86 @@ pub fn tiny_scope(rep: &Report, aad: &[u8], label: &str) {
     rep.sample(json!({"scope":"tiny","label":label,"cs":3,"L":10,"reads":"every composition of 10 into parts <= 3 (274), then EOF","writes":"each write call: full | 1 | len-1, budget per tier"}));
 }
 
+/// State carried from one call to the next inside one thread, across modes: every ordered pair and triple of
+/// {password encrypt, password decrypt, key encrypt, key decrypt} (two plaintext lengths) runs on a FRESH thread; every
+/// file any call writes must be the conforming file (read by REF, which shares no state with the code under test) and
+/// every decryption of a REF-written file must return the plaintext.
+fn cross_mode_sequences(rep: &Report) {
+    let seed = rep.seed;
+    let ids = idents(seed);
+    let (s, rc) = (ids[0].clone(), ids[2].clone());
+    let salt = derive32(seed, "c01-seq-salt");
+    let pw = b"c01 sequence password".to_vec();
+    let pkey = r::pass_key(&pw, &salt);
+    let lens = [5usize, CS as usize + 3];
+    // op codes: 0 pass-enc, 1 pass-dec, 2 key-enc, 3 key-dec
+    let mut seqs: Vec<Vec<(u8, usize)>> = vec![];
+    for a in 0..4u8 {
+        for b in 0..4u8 {
+            seqs.push(vec![(a, 0), (b, 1)]);
+            for c in 0..4u8 {
+                if rep.tier == Tier::Thorough || (a != b && b != c) {
+                    seqs.push(vec![(a, 1), (b, 0), (c, 1)]);
+                }
+            }
+        }
+    }
+    let nseq = seqs.len();
+    let handles: Vec<_> = seqs
+        .into_iter()
+        .map(|sq| {
+            let (s, rc, pw) = (s.clone(), rc.clone(), pw.clone());
+            std::thread::spawn(move || -> Result<(), String> {
+                for (step, &(op, li)) in sq.iter().enumerate() {
+                    let l = lens[li];
+                    let p = plaintext(seed ^ 0x1e ^ (step as u64) << 4 ^ l as u64, l);
+                    let ch: Vec<usize> = if l > CS as usize { vec![CS as usize, l - CS as usize] } else { vec![l] };
+                    let what = format!("step {} of {:?} ({} bytes)", step + 1, sq.iter().map(|x| ["pass-enc", "pass-dec", "key-enc", "key-dec"][x.0 as usize]).collect::<Vec<_>>(), l);
+                    match op {
+                        0 => {
+                            let (res, out) = run_plain(&Subject::PassEnc { pw: hx(&pw), salt: hx(&salt) }, &p);
+                            if !res.is_ok() || !matches!(r::read_pass_file_with_key(&pkey, &out), Ok(k) if k.plaintext == p) {
+                                return Err(format!("{}: pass_encrypt did not write the conforming file ({})", what, res.brief()));
+                            }
+                        }
+                        1 => {
+                            let f = r::write_pass_file_with_key(&pkey, &salt, &p, &ch);
+                            let (res, out) = run_plain(&Subject::PassDec { pw: hx(&pw) }, &f);
+                            if !res.is_ok() || out != p {
+                                return Err(format!("{}: pass_decrypt of a conforming file failed or returned other bytes ({})", what, res.brief()));
+                            }
+                        }
+                        2 => {
+                            let (res, out) = run_plain(&Subject::KeyEnc { s: hx(&s.sk), s_pub: hx(&s.pk), r_pub: hx(&rc.pk), e: String::new(), payload: String::new() }, &p);
+                            if !res.is_ok() || !matches!(r::read_key_file(&rc.sk, &out), Ok(k) if k.parsed.plaintext == p && k.sender == s.pk) {
+                                return Err(format!("{}: key_encrypt did not write a file that the recipient's key opens ({})", what, res.brief()));
+                            }
+                        }
+                        _ => {
+                            let f = r::write_key_file(&s.sk, &rc.pk, &derive32(seed, "c01-seq-e"), &derive32(seed, "c01-seq-p"), &p, &ch).unwrap();
+                            let (res, out) = run_plain(&Subject::KeyDec { r: hx(&rc.sk), r_pub: hx(&rc.pk) }, &f);
+                            if !res.is_ok() || out != p {
+                                return Err(format!("{}: key_decrypt of a conforming file failed or returned other bytes ({})", what, res.brief()));
+                            }
+                        }
+                    }
+                }
+                Ok(())
+            })
+        })
+        .collect();
+    for (i, h) in handles.into_iter().enumerate() {
+        rep.eval(1);
+        rep.nontrivial(format!("cross-mode-seq-{}", i).as_bytes());
+        match h.join() {
+            Ok(Ok(())) => {}
+            Ok(Err(e)) => rep.violation("C01/cross-mode-sequence", json!({"kind":"cross-mode","i":i}), e),
+            Err(_) => rep.violation("C01/cross-mode-sequence", json!({"kind":"cross-mode","i":i}), "worker thread panicked".into()),
+        }
+    }
+    rep.extra("cross_mode_sequences", json!(nseq));
+}
+
 pub fn run(rep: &Report) {
     let seed = rep.seed;
     rep.set_rule("E-ENV: every tape of Read/Write answers within the stated budgets is executed on the real code; read partitions in tiny scope are exhaustive (every composition of L into parts <= cs). A case is one complete execution; distinct non-trivial = distinct ciphertext streams (i.e. distinct (keys, length, chunking)) that were produced by the real encryptor and decrypted again by the real decryptor");
@@ -287,6 +367,7 @@ pub fn run(rep: &Report) {
         }
     }
     cli_roundtrips(rep);
+    cross_mode_sequences(rep);
     rep.eval(execs.load(Ordering::Relaxed));
     rep.extra("production_executions", json!(execs.load(Ordering::Relaxed)));
     rep.extra("production_lengths", json!(lens));
@@ -310,26 +391,42 @@ fn cli_roundtrips(rep: &Report) {
     let kr = format!("{}\n{}\n{}\n{}\n{}", decoy("Alice"), decoy("BOB"), decoy("ali"), decoy("bobby"), crate::fx::keyring(&[(&bob, true), (&alice, true)]));
     let cs = CS as usize;
     let mut jobs = vec![];
-    for l in [0usize, 1, 1000, cs, cs + 1] {
+    // (length, content): content 0 = pseudo-random bytes, 1 = the last 4096 bytes are zero, 2 = the second half is zero,
+    // 3 = all zero (a writer that skips zero blocks, or sizes its output from them, shows up here)
+    let mut shapes: Vec<(usize, u8)> = [0usize, 1, 1000, cs, cs + 1].iter().map(|&l| (l, 0u8)).collect();
+    shapes.extend([(10_000usize, 3u8), (cs + 4096, 1), (2 * cs, 2), (2 * cs, 3), (cs, 3)]);
+    for (l, content) in shapes {
         for (s, r) in [(0usize, 1usize), (1, 0), (0, 0)] {
+            if content != 0 && (s, r) != (0, 1) {
+                continue;
+            }
             // wiring 0: FILE arguments and -o; 1: stdin/stdout pipes; 2: the FILE argument is a named pipe (FIFO), -o files
             for wiring in 0..3u8 {
                 for preexisting in [false, true] {
                     if wiring == 2 && (preexisting || (s, r) != (0, 1)) {
                         continue;
                     }
-                    jobs.push((l, s, r, wiring, preexisting));
+                    jobs.push((l, s, r, wiring, preexisting, content));
                 }
             }
         }
     }
     let parties = [&alice, &bob];
-    jobs.par_iter().for_each(|&(l, s, r, wiring, preexisting)| {
+    jobs.par_iter().for_each(|&(l, s, r, wiring, preexisting, content)| {
         let pipes = wiring == 1;
         let fifo = wiring == 2;
         rep.eval(1);
-        rep.nontrivial(format!("cli-rt-{}-{}-{}-{}-{}", l, s, r, wiring, preexisting).as_bytes());
-        let p = plaintext(seed ^ 0x5c ^ l as u64, l);
+        rep.nontrivial(format!("cli-rt-{}-{}-{}-{}-{}-{}", l, s, r, wiring, preexisting, content).as_bytes());
+        let mut p = plaintext(seed ^ 0x5c ^ l as u64, l);
+        match content {
+            1 => {
+                let z = l.saturating_sub(4096);
+                p[z..].iter_mut().for_each(|b| *b = 0);
+            }
+            2 => p[l / 2..].iter_mut().for_each(|b| *b = 0),
+            3 => p.iter_mut().for_each(|b| *b = 0),
+            _ => {}
+        }
         let attempt = || -> Result<(), String> {
             let sc = Scratch::new();
             sc.write("kr.txt", kr.as_bytes());
@@ -390,7 +487,7 @@ fn cli_roundtrips(rep: &Report) {
                 (sc.read("back.bin").ok_or("no plaintext file")?, o.stderr)
             };
             if back != p {
-                return Err(format!("CLI round trip of {} bytes ({}{}) returns {} bytes that differ from the original", l, if pipes { "pipes" } else if fifo { "FILE arguments are named pipes" } else { "files" }, if preexisting { ", output paths held longer files before" } else { "" }, back.len()));
+                return Err(format!("CLI round trip of {} bytes{} ({}{}) returns {} bytes that differ from the original", l, ["", " ending in 4096 zero bytes", " whose second half is zero", ", all zero"][content as usize], if pipes { "pipes" } else if fifo { "FILE arguments are named pipes" } else { "files" }, if preexisting { ", output paths held longer files before" } else { "" }, back.len()));
             }
             if !stderr.split(|c: char| !(c.is_alphanumeric() || c == '-' || c == '_')).any(|t| t == snd.name) {
                 return Err(format!("decryption does not report sender '{}': {:?}", snd.name, stderr));
@@ -412,6 +509,10 @@ fn cli_roundtrips(rep: &Report) {
 }
 
 pub fn replay(rep: &Report, case: &Value) {
+    if case["kind"] == "cross-mode" {
+        cross_mode_sequences(rep);
+        return;
+    }
     if case["kind"] == "cli-roundtrip" {
         println!("  re-running the CLI round trips");
         cli_roundtrips(rep);
